@@ -863,6 +863,69 @@ def f(x: FLOAT[...], y: FLOAT[...], n: INT64):
 ''', ["x:F:2 y:F:2 n:I:"])
 
 # ---------------------------------------------------------------- sub-function calls
+# ---------------------------------------------------------------- liveness: uses that are not plain operands
+P("loop_bound_assigned_in_branches", '''
+@script()
+def f(x: FLOAT[...], c: BOOL, n: INT64):
+    k = n + 0
+    s = x
+    if c:
+        k = n + 1
+        s = x + 10.0
+    else:
+        k = n + 2
+        s = x + 20.0
+    for i in range(k):
+        s = s + 1.0
+    return s
+''', ["x:F:3 c:B: n:I:", "x:F: c:B: n:I:"])
+
+P("loop_bound_assigned_in_loop", '''
+@script()
+def f(x: FLOAT[...], n: INT64):
+    k = n + 0
+    s = x
+    for i in range(2):
+        k = k + 1
+        s = s * 2.0
+    for j in range(k):
+        s = s + 1.0
+    return s
+''', ["x:F:2 n:I:"])
+
+P("keyword_input_expression_use", '''
+@script()
+def f(x: FLOAT[...], c: BOOL):
+    y = x
+    w = x
+    if c:
+        y = x + 1.0
+        w = x + 5.0
+    else:
+        y = x + 2.0
+        w = x + 6.0
+    z = op.Add(w, B=y * 2.0)
+    return z
+''', ["x:F:3 c:B:"])
+
+P("keyword_input_expression_use_in_loop", '''
+@script()
+def f(x: FLOAT[...], n: INT64):
+    y = x
+    s = x
+    for i in range(n):
+        s = op.Add(s, B=y + 1.0)
+        y = y * 2.0
+    return s
+''', ["x:F:2 n:I:"])
+
+P("float_mod_two_tensors", '''
+@script()
+def f(x: FLOAT[...], y: FLOAT[...]):
+    return x % y
+''', ["x:F:3 y:F:3"])
+
+
 P("call_helper", '''
 @script()
 def helper(a: FLOAT[...], b: FLOAT[...], alpha: float = 2.0):
